@@ -81,6 +81,14 @@ pub struct Responder {
     pub tokens_issued: Vec<Vec<u8>>,
     /// make every get_peers answer exactly this long by lengthening the token
     pub pad_reply_to: Option<usize>,
+    /// get_peers for this info-hash is never answered (whatever the other settings say)
+    pub silent_for: Option<[u8; 20]>,
+    /// get_peers for this info-hash is answered with this node list and no values
+    pub crowd: Option<([u8; 20], Vec<([u8; 20], SocketAddr)>)>,
+    /// get_peers answers carry no token (a node that does not accept announces)
+    pub no_token: bool,
+    /// get_peers answers carry, after the real values, one entry of this many bytes (neither 6 nor 18)
+    pub odd_value: Option<usize>,
 }
 
 impl Responder {
@@ -109,6 +117,10 @@ impl Responder {
             rotate_tokens: false,
             tokens_issued: vec![],
             pad_reply_to: None,
+            silent_for: None,
+            crowd: None,
+            no_token: false,
+            odd_value: None,
         }
     }
 
@@ -201,6 +213,17 @@ impl Peer for Responder {
         if !p.valid || p.y != 'q' || !self.is_up(ctx.now_ms) {
             return;
         }
+        if p.q == "get_peers" && p.target.is_some() && p.target == self.silent_for {
+            return;
+        }
+        if p.q == "get_peers" {
+            if let Some((h, list)) = &self.crowd {
+                if p.target == Some(*h) {
+                    ctx.out.push((from, krpc::response(&p.tid, &self.id, Some(&self.token), None, list)));
+                    return;
+                }
+            }
+        }
         let mode = match (&self.search_mode, p.q.as_str()) {
             (Some(m), "get_peers") | (Some(m), "announce_peer") => m.clone(),
             _ => self.mode.clone(),
@@ -240,7 +263,12 @@ impl Peer for Responder {
                     self.token.clone()
                 };
                 let nodes = self.nodes_for(&t, from);
-                let mut reply = krpc::response(&p.tid, &self.id, Some(&tok), vals, &nodes);
+                let mut reply = krpc::response(&p.tid, &self.id, if self.no_token { None } else { Some(&tok) }, vals, &nodes);
+                if let Some(l) = self.odd_value {
+                    let mut raw: Vec<Vec<u8>> = self.values.iter().map(crate::benc::compact_addr).collect();
+                    raw.push((1..=l as u8).collect());
+                    reply = krpc::response_raw(&p.tid, &self.id, if self.no_token { None } else { Some(&tok) }, Some(&raw), &nodes);
+                }
                 if let Some(target) = self.pad_reply_to {
                     let mut tk = tok.clone();
                     for _ in 0..4 {
